@@ -142,7 +142,7 @@ func C16(c *core.Ctx) {
 	ruleIdent(c)
 	c.Floor("pairs", c.Counts["pairs"], 800, "option pairs related")
 	// naming options with several files: every root keeps the name ITS OWN title / mapping gives it
-	ruleMultiSel(c, ruleSet("A-ROUTE", "A-TYP", "A-MAP"), 4, "names from titles", "--schema-root-type")
+	ruleMultiSel(c, ruleSet("A-ROUTE", "A-TYP", "A-MAP", "A-REL"), 5, "names from titles", "--schema-root-type")
 	emit(c, engb.New(c.Prog).FlagWiring("main.main", "main.init$1", "generator.Config"))
 }
 
